@@ -45,7 +45,15 @@ def one(name, checks, tier):
             res["note"] = "patch does not apply to the current HEAD: " + o[-200:]
             return res
         res["applies"] = True
-        cl = all_checks() if checks == 'all' else ([meta["property"]] if checks == 'own' else checks.split(','))
+        if checks == 'own':
+            # the property's own check plus the checks recorded as catching it when it was stored
+            cl = [meta["property"]] + [c.split()[0] for c in meta.get("caught_by", []) if c.split()[0] != meta["property"]]
+            stored = [c for c in meta.get("caught_by", []) if c.split()[0] == meta["property"]]
+            if stored and all(c.endswith('thorough') for c in stored):
+                tier = 'thorough'
+                res["tier"] = tier
+        else:
+            cl = all_checks() if checks == 'all' else checks.split(',')
         env = dict(os.environ, PV_REPO=wt, PV_EVIDENCE_DIR=ev, PV_REPLAY_DIR=os.path.join(ev, 'replays'))
         for cid in cl:
             t0 = time.time()
